@@ -40,3 +40,9 @@ Definition cfg_simtub : cfg :=
 Definition cfg_shrink : cfg :=
   mkcfg (mknc (Str "G2G") true true true 1 (Str ".") true) false false false (-1) false false 0 0 0 false 5 0 1 2 2 0 true [] false (-1) 1 1 0 true false.
 Definition w_names_after_kriging : list str := [Str "rank"; Str "x1"; Str "x2"; Str "old"; Str "K.z.estim"; Str "K.z.stdev"].
+(* a grid carrying one external drift variable (locator F = 3), and kriging with a model asking for one external drift *)
+Definition w_dout_f : db :=
+  mkdb [mkcol 0 (Str "rank") (Orig 0); mkcol 1 (Str "x1") (Orig 1); mkcol 2 (Str "x2") (Orig 2); mkcol 3 (Str "drift") (Orig 3)]
+       4 ([1; 2] :: [] :: [] :: [3] :: repeat [] 25) true 2.
+Definition cfg_extdrift : cfg :=
+  mkcfg nc_k true true false (-1) false false 0 0 0 false 5 0 1 2 2 1 true [] false (-1) 1 0 0 true false.
